@@ -11,7 +11,9 @@ RULE = ("relayloop: scripted header schedules (gaps, repeats, lower heads, heads
         "placed inside and at the boundaries of the scanned ranges, FilterLogs failures, process kills at six points of "
         "an iteration (on eth_getLogs before the reply; after the reply on the account query; on broadcast_tx_commit "
         "before it is recorded; 1.5 s and 6 s after the broadcast was answered, i.e. during the loop's sleep before DB.Put; "
-        "after DB.Put) and between iterations, restart on the same LevelDB directory; non-trivial = distinct schedule "
+        "after DB.Put) and between iterations, restart on the same LevelDB directory; one schedule in three has LARGE distances between "
+        "cursor and confirmed head (pre-seeded cursor far behind the first header, header gaps/bursts, long runs of failed queries: "
+        "10^3..10^5 blocks, events placed just beyond cursor + 1000/2000/5000/10000 and on the last confirmed block); non-trivial = distinct schedule "
         "(every schedule has at least 4 header deliveries that reach the log query)")
 TRUSTED_BASE = [
     "Lean 4.33.0 kernel; axioms propext, Classical.choice, Quot.sound (audited per theorem on every run)",
